@@ -60,15 +60,18 @@ static void* worker(void* p) {
             pv_in_lib = 0;
             if (c->table_kind) pv_w->time_value = (uint64_t)pv_wrap_time_value;
             T = pv_mix(T, (uint64_t)st);
+            /* the feature mask was configured once, by the main thread, before any worker existed: it holds for every thread */
+            if (st != POLYSEED_OK && !c->model_mismatch++) snprintf(c->first_mismatch, sizeof c->first_mismatch, "create(%u) -> %s although features 1|2 were enabled before the threads started", f, pv_status_name(st));
             if (st == POLYSEED_OK) { memcpy(M[sl].secret, script, 19); M[sl].secret[18] &= 0x3f; M[sl].birthday = pv_m_birthday_of(pv_w->time_value); M[sl].features = f; } else S[sl] = NULL;
             break; }
         case OP_DECODE: case OP_EXPLICIT: case OP_LOAD: {
             pv_mseed m; pv_gen_mseed(&r, 3, true, &m);
             int st;
-            if (op == OP_LOAD) { pv_m_image(&m, img); if (pv_randn(&r, 8) == 0) img[pv_randn(&r, 32)] ^= 2; st = polyseed_load(img, &S[sl]); }
+            bool pristine = true;
+            if (op == OP_LOAD) { pv_m_image(&m, img); if (pv_randn(&r, 8) == 0) { img[pv_randn(&r, 32)] ^= 2; pristine = false; } st = polyseed_load(img, &S[sl]); }
             else {
                 char ph[2048]; pv_m_encode(&m, L, coin, ph, sizeof ph);
-                if (pv_randn(&r, 8) == 0) coin ^= 1;
+                if (pv_randn(&r, 8) == 0) { coin ^= 1; pristine = false; }
                 const polyseed_lang* lo = NULL;
                 bool want_lang = pv_randn(&r, 2);          /* lang_out is optional */
                 if (op == OP_DECODE && !want_lang) c->decodes_without_lang_out++;
@@ -76,6 +79,9 @@ static void* worker(void* p) {
                 if (st == POLYSEED_OK && op == OP_DECODE && want_lang) T = pv_mix(T, pv_hash_str(polyseed_get_lang_name_en(lo)));
             }
             T = pv_mix(T, (uint64_t)st);
+            if (pristine && st != POLYSEED_OK && !(op == OP_DECODE && st == POLYSEED_ERR_MULT_LANG) && !c->model_mismatch++)
+                snprintf(c->first_mismatch, sizeof c->first_mismatch, "%s of a valid %s (features %u, enabled 1|2) -> %s", OPN[op], op == OP_LOAD ? "image" : "phrase", m.features, pv_status_name(st));
+            if (!pristine && st == POLYSEED_OK && !c->model_mismatch++) snprintf(c->first_mismatch, sizeof c->first_mismatch, "%s accepted a corrupted input", OPN[op]);
             if (st == POLYSEED_OK) M[sl] = m; else S[sl] = NULL;
             if (st == POLYSEED_OK) { polyseed_store(S[sl], img); uint8_t mi[32]; pv_m_image(&m, mi); if (memcmp(img, mi, 32) && !c->model_mismatch++) snprintf(c->first_mismatch, sizeof c->first_mismatch, "%s: decoded/loaded seed differs from the model", OPN[op]); T = pv_mix(T, pv_hash(img, 32, 1)); }
             break; }
